@@ -130,3 +130,69 @@ Proof.
     change ((c :: t) ++ rest) with (c :: (t ++ rest)). cbn [split_sign]. rewrite M.
     change (c :: (t ++ rest)) with ((c :: t) ++ rest). now rewrite (lex_body_wf _ _ Wb S).
 Qed.
+
+(* ------------------------------------------------------------------ parsePrimary: an integer literal is never classified FLOAT *)
+Lemma exp_full_prefix q b t : prefix_base q = Some b -> exp_full (q :: t) = false.
+Proof.
+  intros H. unfold exp_full.
+  assert (Ascii.eqb q "e" || Ascii.eqb q "E" = false) as ->; [|reflexivity].
+  destruct (Ascii.eqb_spec q "e") as [->|]; [discriminate|].
+  destruct (Ascii.eqb_spec q "E") as [->|]; [discriminate|]. reflexivity.
+Qed.
+
+Lemma prefix_not_dec q b : prefix_base q = Some b -> is_dec q = false /\ Ascii.eqb q c_us = false /\ Ascii.eqb q c_dot = false.
+Proof.
+  intros H. split; [|split].
+  - destruct (is_dec q) eqn:E; [|reflexivity]. rewrite (dec_prefix_none _ E) in H. discriminate.
+  - exact (prefix_not_us _ _ H).
+  - destruct (Ascii.eqb_spec q c_dot) as [->|]; [discriminate|reflexivity].
+Qed.
+
+Lemma float_body_wf r :
+  wf_body r = true ->
+  match take_groups is_dec r with
+  | None => false
+  | Some (_, rest) =>
+      match rest with
+      | [] => false
+      | d :: rest1 =>
+          if Ascii.eqb d c_dot
+          then match take_groups is_dec rest1 with
+               | Some (_, rest2) => match rest2 with [] => true | _ => exp_full rest2 end
+               | None => false
+               end
+          else exp_full rest
+      end
+  end = false.
+Proof.
+  unfold wf_body, split_base. intros W.
+  assert (forall r0, wf_groups is_dec r0 = true -> take_groups is_dec r0 = Some (r0, [])) as DecCase.
+  { intros r0 W0. pose proof (take_groups_wf Dec r0 [] W0 eq_refl) as T. cbn [is_digit] in T.
+    now rewrite app_nil_r in T. }
+  destruct r as [|z [|q t]].
+  - discriminate.
+  - now rewrite (DecCase _ W).
+  - destruct (Ascii.eqb z c_zero) eqn:Hz; [|now rewrite (DecCase _ W)].
+    destruct (prefix_base q) as [b|] eqn:Pb; [|now rewrite (DecCase _ W)].
+    destruct (prefix_not_dec _ _ Pb) as (Nd & Nu & Ndot).
+    apply Ascii.eqb_eq in Hz. subst z. cbn [take_groups]. change (is_dec c_zero) with true. cbn iota.
+    cbn [take_tail]. rewrite Nd, Nu, Ndot. now apply (exp_full_prefix _ b).
+Qed.
+
+Lemma int_token_kind s : wf_lit s = true -> literal_kind s = KInt.
+Proof.
+  intros W. unfold literal_kind, is_float_token.
+  destruct (wf_lit_cases s W) as [(r & -> & Wr & _)|(c & t & -> & Hx & Wb & _)].
+  - cbn [split_sign]. change (Ascii.eqb c_minus c_minus) with true. cbn iota. now rewrite (float_body_wf _ Wr).
+  - destruct (hex_not_special _ Hx) as (_ & M & _). cbn [split_sign]. rewrite M. now rewrite (float_body_wf _ Wb).
+Qed.
+
+Lemma exponent_forms_kind :
+  literal_kind (str_of "1e5") = KFloat /\ literal_kind (str_of "1E5") = KFloat /\ literal_kind (str_of "1e+5") = KFloat /\
+  literal_kind (str_of "-1e-5") = KFloat /\ literal_kind (str_of "1_0e2") = KFloat /\ literal_kind (str_of "1.5") = KFloat /\
+  literal_kind (str_of "-2.5E+0_2") = KFloat /\
+  lex_number (str_of "1e5;") = LexFloat /\ lex_number (str_of "-1_0E-2;") = LexFloat /\
+  literal_kind (str_of "0x1e5") = KInt /\ literal_kind (str_of "-0x7e") = KInt /\ literal_kind (str_of "-0XE") = KInt /\
+  lex_number (str_of "-0x7e;") = LexInt (str_of "-0x7e") (str_of ";") /\
+  literal_kind_orig (str_of "1e5") = KInt.
+Proof. vm_compute. repeat split. Qed.
